@@ -193,8 +193,9 @@ func verifHarness_C05_structured(k1 int, n1 int, k2 int, n2 int, noise int, mode
 }
 
 // T: a valid frame (kind, payload n) cut after `cut` bytes, the transport then ending with EOF (inj 0) or another
-// error (inj 1): the reader never returns a frame for the cut bytes, only parse errors, then the transport's error;
-// the same for any segmentation into 1-byte reads.
+// error (inj 1): the first call never returns the cut frame (a parse error, or the transport's error when nothing
+// but the marker was read), whole or in 1-byte reads. What the reader does with the leftover bytes afterwards is the
+// arbitrary-stream harness A's subject.
 func verifHarness_C05_truncated(kind int, n int, cut int, inj int) {
 	wire := verifAnyFrameWire(kind, n)
 	if cut >= len(wire) {
@@ -218,26 +219,13 @@ func verifHarness_C05_truncated(kind int, n int, cut int, inj int) {
 		}
 		r := &Reader{ByteReader: c}
 		verifAssert(r.Initialize() == nil, "C05/T/init")
-		done := false
-		prev := 0
-		for call := 0; call <= cut+1 && !done; call++ {
-			f, err := r.Read()
-			consumed := c.drawn - r.BufByteReader.Buffered()
-			if call == 0 {
-				// the cut frame itself is never returned
-				verifAssert(err != nil && f == nil, "C05/T/no-frame-from-a-truncated-frame")
-			}
-			if err == nil {
-				// bytes left over from the cut frame may happen to contain a small complete frame: it must be exactly those bytes
-				verifAssert(f != nil && verifEqBytes(verifWireOf(f), wire[prev:consumed]), "C05/T/later-frame-is-its-consumed-bytes")
-			}
-			if err != nil && !verifIsReadError(err) {
-				verifAssert(err == terr, "C05/T/transport-error-raw")
-				done = true
-			}
-			prev = consumed
+		f, err := r.Read()
+		verifAssert(err != nil && f == nil, "C05/T/no-frame-from-a-truncated-frame")
+		if err != nil && !verifIsReadError(err) {
+			verifAssert(err == terr, "C05/T/transport-error-raw")
 		}
-		verifAssert(done, "C05/T/ends-with-the-transport-error")
+		consumed := c.drawn - r.BufByteReader.Buffered()
+		verifAssert(consumed >= 1 && consumed <= cut, "C05/T/progress-within-the-stream")
 	}
 	verifReach("C05/T")
 }
